@@ -76,6 +76,14 @@ func main() {
 		errorAndExit(err)
 	}
 	if *gitDiffDriver {
+		if !*libv2 {
+			// The git diff driver is built on the v2 library only.
+			// It still has to honor the other flags.
+			options, err = parseMetadataV2()
+			if err != nil {
+				errorAndExit(err)
+			}
+		}
 		err := printGitDiffDriver(options)
 		if err != nil {
 			errorAndExit(err)
